@@ -1,19 +1,38 @@
-"""C15 -- isolation: results independent of history (and of concurrent work).
+"""C15 -- isolation: results independent of history and (for the module state the library owns) of concurrent work.
 
-**Schedules** (thread interleavings) cannot be expressed by per-call contracts and no
-tool of this family is available for Python threads: that half of C15 is NOT decided here
-(stated in MANIFEST level_note).  The **histories** half is a set of frame conditions on
-module state:
-  H1  `_patched_build_char_map`: on every exit of the with-body (normal, exception thrown at
-      the yield, close) every patched attribute holds its entry value again (symbolic execution
-      of the real generator; the with-body is assumed to leave the attributes as it found them,
-      which is this very obligation for nested uses);
-  H2  `patch_pypdf_fallback_aes` installs only module-level functions / closures without
-      captured per-call state (idempotent in behaviour) -- the one documented permanent change;
-  H3  memo soundness of every module-level cache: the stored value depends on the key only;
+**Histories** are frame conditions on module state, decided on the real AST / by symbolic execution of the real bodies:
+  H1  `_patched_build_char_map`: on every exit of the with-body (normal, exception thrown at the yield, close) every patched
+      attribute holds its entry value again (symbolic execution of the real generator);
+  H2  `patch_pypdf_fallback_aes` installs only module-level functions / closures without captured per-call state;
+  H3  memo soundness of every module-level cache, per store site: (a) the stored value is computed from nothing but what the key
+      is computed from (parameters AND module state, through helpers), (b) the key DETERMINES each of those inputs (built by
+      tuples / order-preserving conversions / helper functions whose returns do -- anything else is `unknown` and goes to the
+      native collision search), (c) lookups and stores use one key expression;
   H4  `_config` is written only by `configure_archive_extraction`;
-  H5  inventory of module-level mutable state (a new global mutable is flagged);
-  H6  every OLE / ZIP / workbook / temp-dir handle opened by own code is closed on all paths.
+  H5  inventory of module-level mutable state: every module- / class-level object that some function mutates (subscript / attribute
+      store, mutator method, setattr, through aliases and handed-out references), state kept on function / class objects, names
+      rebound through `global`, `globals()`, mutated mutable default arguments;
+  H6  every OLE / ZIP / workbook / temp-dir handle opened by own code is closed on all paths;
+  H7  every content-changing write of a cache happens behind a miss of its own lookup;
+  H8  a reader that takes "non-empty" for "completely populated" (`if REGISTRY: return REGISTRY`): every write sits behind that
+      guard and stores nothing that depends on the call;
+  H10 ownership: an object stored in / handed out by module state (cache values, per-thread pools, lru_cache results, module-level
+      tables) is never mutated afterwards (contracts/c15_own.py: interprocedural label propagation; `_get_round_keys` additionally
+      by symbolic execution with a ghost set of published heap objects);
+  H11 no interpreter-wide or third-party setting is changed (setters of os / sys / locale / warnings / logging / csv / mimetypes ...,
+      attribute stores and setattr on objects of other libraries, also through aliases) outside the two reviewed patch sites.
+
+**Schedules.**  Arbitrary interleavings are NOT decided.  What contracts over the real code do express, and what is decided here,
+are three sufficient conditions under which threads cannot disturb each other through the module state the library owns:
+  H10 (above) published objects are immutable after publication -- with it, a thread can only be affected through the cache
+      *operations*, never through a value it already holds;
+  H9a where entries can be evicted, every operation that needs its key present tolerates a concurrent eviction (try / lock);
+  H9b populate-once state is published atomically (one write statement or under a lock);
+  H12 a temporary patch of a shared object (save / set / restore) runs under a lock.
+A failed condition is `unknown` until the native replayer exhibits a schedule: two threads under a controlled scheduler
+(sys.settrace), one preemption at every line of the functions that touch the state (H9, H10), or two context switches at every
+pair of lines of the patching context manager (H12).  On /repo HEAD H9a, H9b and H12 fail and are reproduced: recorded in
+known_findings.json with proposed_fixes/C15_1..3.diff.
 """
 import ast
 
@@ -379,6 +398,16 @@ def policy(repo, tier):
     for x in written:
         cw = sorted(O.content_writes(an, x), key=lambda e: (e["fn"], e["node"].lineno, e["node"].col_offset))
         keyed = [e for e in cw if e["key"] is not None and e["value"] is not None and not e["removal"]]
+        # bulk publication from a local staging dict: X.update(local) with local[k] = v in the same function -> its keyed stores
+        for e in cw:
+            n = e["node"]
+            if isinstance(n, ast.Call) and isinstance(n.func, ast.Attribute) and n.func.attr == "update" and len(n.args) == 1 and isinstance(n.args[0], ast.Name):
+                fn = an.fns[e["fn"]]
+                for a in fn.own:
+                    if isinstance(a, ast.Assign) and len(a.targets) == 1 and isinstance(a.targets[0], ast.Subscript) and isinstance(a.targets[0].value, ast.Name) \
+                            and a.targets[0].value.id == n.args[0].id and n.args[0].id in fn.locals:
+                        keyed.append(dict(e, node=a, key=a.targets[0].slice, value=a.value, how=f"line {a.lineno}: {ast.unparse(a.targets[0])} staged, published by line {n.lineno}"))
+        keyed.sort(key=lambda e: (e["fn"], e["node"].lineno, e["node"].col_offset))
         accessors = sorted({e["fn"][1] for e in cw})
         per_fn = {}
         for e in keyed:
@@ -410,6 +439,9 @@ def policy(repo, tier):
                 elif isinstance(n, ast.Call) and isinstance(n.func, ast.Attribute) and n.func.attr in ("get", "setdefault", "pop", "move_to_end") and n.args \
                         and O.is_state_expr(an, fn, n.func.value, x):
                     keys.add(ast.unparse(n.args[0]))
+            for e in keyed:
+                if e["fn"][1] == q and "staged" in e["how"]:
+                    keys.add(ast.unparse(e["key"]))
             if keys:
                 GH(f"C15/{x}/memo#lookup-key-is-the-store-key-{q}", len(keys) == 1, f"{q}: key expressions used on the cache: {sorted(keys)}", x, definite=False,
                    h=hint(x, writer=q, accessors=accessors))
@@ -563,13 +595,33 @@ def policy(repo, tier):
                                 o = origin(e.value)
                                 if o and not o.startswith("sharepoint2text"):
                                     sites.append((f"{rel.split('/')[-1]}::{q}", f"line {n.lineno}: {ast.unparse(e)[:60]} assigned ({o} is not the package's own state)"))
-    reviewed = {"_pypdf_aes_fallback.py::patch_pypdf_fallback_aes"}          # the one documented permanent change (H2)
+    # ... also through aliases / containers / helper returns (label X: of the ownership analysis)
+    for e in an.xmuts():
+        sites.append((f"{e['fn'][0].split('/')[-1]}::{e['fn'][1]}", f"{e['how']} ({e['state']} is not the package's own state)"))
+    reviewed = {"_pypdf_aes_fallback.py::patch_pypdf_fallback_aes",          # the one documented permanent change (H2)
+                "pdf_extractor.py::_patched_build_char_map"}                 # the temporary patch: restored on every exit (H1), serialised (H12)
     extra_s = sorted({f"{w} {what}" for (w, what) in sites if w not in reviewed})
     st_o = ground_obligation("C15/package/policy#no-interpreter-or-third-party-setting-is-changed-by-extraction-code", not extra_s,
                              "; ".join(extra_s[:5]) or f"{len(sites)} site(s), all in {sorted(reviewed)}; setters checked: {len(SETTERS)}", "package", definite=False)
     st_o["replay_hint"] = {"context_managers": [[rel, q] for rel, m in mods.items() for q, fn in m.functions.items()
                                                 if any("contextmanager" in ast.unparse(d) for d in fn.decorator_list)]}
     obls.append(st_o)
+    # H12 (schedules): a temporary patch of a shared object (save / set / restore) is a critical section
+    by_fn = {}
+    for e in an.xmuts():
+        w = f"{e['fn'][0].split('/')[-1]}::{e['fn'][1]}"
+        if w != "_pypdf_aes_fallback.py::patch_pypdf_fallback_aes":
+            by_fn.setdefault(e["fn"], []).append(e)
+    for key, evs in sorted(by_fn.items()):
+        afn = an.fns[key]
+        open_ = [e for e in evs if not O.locked(afn, e["node"])]
+        is_cm = any("contextmanager" in ast.unparse(d) for d in afn.node.decorator_list)
+        o = ground_obligation(f"C15/{key[0].split('/')[-1]}::{key[1]}/schedule#temporary-patch-of-shared-objects-is-serialised", not open_,
+                              "; ".join(sorted({f"{e['how']} on {e['state']}" for e in open_})[:4]) + (" -- not under a lock: two threads interleaving save / set / restore "
+                                                                                                      "leave the other thread's wrapper installed" if open_ else "all under a lock"),
+                              key[0], definite=False)
+        o["replay_hint"] = {"rel": key[0], "patchers": [[key[0], key[1]]] if is_cm else [], "functions": [key[1].split(".")[-1]]}
+        obls.append(o)
     # H4: _config
     arch = mods[ARCH]
     writers = sorted({q for q, fn in arch.functions.items() if any(isinstance(n, ast.Global) and "_config" in n.names for n in _own(fn))}
@@ -682,12 +734,19 @@ def known_findings(kf, violations, repo, tier):
 
 
 EXTRA = [policy, validate_histories]
-BOUNDED = ["assumed-contract-validation#fixtures-same-in-isolation-and-in-sequences: repository fixtures, forward and reverse order in one process, "
-           "PDFs and a sample of the rest against fresh-process baselines -- bounded validation of the frame assumptions, not a proof"]
+BOUNDED = ["assumed-contract-validation#fixtures-same-in-isolation-and-in-sequences: generated documents (EPUB / HTML incl. truncated ones, text, archives, "
+           "corrupt inputs) every one after every other one against forked pristine baselines, stored payloads deserialised after one other "
+           "(de)serialisation step, repository fixtures forward and reverse in one process with fresh-process baselines for the PDFs and a sample; "
+           "interpreter / third-party settings and patched functions compared before / after -- bounded validation, not a proof"]
 TRUSTED = ["the with-body of _patched_build_char_map leaves the patched attributes as it found them (holds for nested uses by this very obligation)",
-           "mimetypes database does not change between calls (lru_cache'd guess_content_type, router caches)"]
-ASSUMED_MODELS = ["getattr/setattr on pypdf modules (ghost attribute map)", "generator resumption: normal, throw(exc), close()"]
-ASSUMPTIONS = ["SCHEDULES (thread interleavings) are NOT decided: contracts over one call cannot express them",
-               "memo soundness is a parameter-dependency analysis on the AST (back end 'dataflow')", "PY-GEN"]
+           "mimetypes database does not change between calls (lru_cache'd guess_content_type, router caches)",
+           "library (non-package) callables do not mutate the arguments they are given (ownership analysis); copies (dict(x), list(x), x.copy(), slices) "
+           "are tracked one level deep"]
+ASSUMED_MODELS = ["getattr/setattr on pypdf modules (ghost attribute map)", "generator resumption: normal, throw(exc), close()",
+                  "_ROUND_KEY_CACHE as an abstract mapping whose values are published heap objects; _expand_key returns a fresh list or raises ValueError (C20 proves it)"]
+ASSUMPTIONS = ["SCHEDULES: only the sufficient conditions H9a / H9b / H10 / H12 on the module state the library owns are decided; interleavings inside third-party "
+               "code and schedules with more context switches than the replayer explores (1 for caches, 2 for the patch section) are NOT",
+               "memo soundness / ownership / write discipline are dataflow analyses on the real AST (back end 'dataflow'); an unrecognised shape is `unknown`, never proved",
+               "PY-GEN"]
 
 REPLAY_UNKNOWN = True    # undecided / out-of-subset items are searched natively (replay) before being reported UNDECIDED
